@@ -82,6 +82,18 @@ class Prover:
         return False
 
 
+def guarded(pr, desc, witness_fn, fn):
+    """Calls the code under test on inputs that are valid by construction. An exception it raises is a failed obligation (the
+    documented result was not produced); the witness is replayed on the real code like any other. Limits of the shim are not."""
+    try:
+        return True, fn()
+    except E.ShimUnsupported:
+        raise
+    except Exception as e_:          # noqa: B902 - path-steering exceptions are BaseException and pass through
+        pr.prove(z3.BoolVal(False), f'{desc}: raised {type(e_).__name__}: {str(e_)[:160]}', witness_fn, sample=False)
+        return False, None
+
+
 def any_differs(xs, ys):
     """z3 condition: some pair differs (element lists of equal length)."""
     assert len(xs) == len(ys), (len(xs), len(ys))
